@@ -507,6 +507,7 @@ fn mutations(n_fields: usize, n_bytes: usize) -> impl Strategy<Value = Mutations
 }
 
 pub fn run(mut ctx: Ctx) -> ! {
+    crate::fuzz_seed::c01_fuzz(&mut ctx);
     let _watchdog = engine::Watchdog::arm("C01 (SQLite worker threads)", Duration::from_secs(ctx.pick(900, 7200)));
     ctx.assume("the reference predicate is applied to the canonical bytes (Header::to_bytes) of the header value that is validated");
     ctx.assume("part (a) limits Causal `previous` to <= 1 hash: headers with larger sets have no deterministic encoding on a tree with the C02 defect");
